@@ -1,5 +1,6 @@
 import HcipyVerif.Lemmas.FftPipeline
 import HcipyVerif.Lemmas.FourierC02
+import HcipyVerif.Lemmas.FourierC02R4
 
 /-!
 # C02 — Fourier forward/backward are inverse, adjoint and energy-consistent
@@ -133,5 +134,358 @@ example : ∃ (g : Cfg ℝ ℂ) (wr wo : ℝ), g.Mo = g.M ∧ g.N ≤ g.M ∧ g.
     g.w = (wr : ℂ) ∧ (wo : ℂ) * (g.M : ℂ) * g.w = 1 ∧ 0 ≤ wo :=
   ⟨{ N := 2, M := 4, Mo := 4, δ := 1 / 2, z := 0, dT := 1 / 2, s := 0, w := ((1 / 2 : ℝ) : ℂ), emu := true },
     1 / 2, 1 / 2, rfl, by norm_num, by norm_num, rfl, by push_cast; norm_num, by norm_num⟩
+
+/-! ## Two axes: the literal 2-D pipelines `fastForward2` / `fastBackward2`
+
+Obtained from the 1-D theorems above by separability (`fastForward2_eq_iter`,
+`fastBackward2_eq_iter`) and the fact that 1-D pipelines on different axes commute
+(`FinLin.comm`, Lemmas/FourierC02R4.lean). -/
+
+/-- the literal 2-D forward pipeline as 1-D pipelines, as a function of `kx` -/
+theorem fastForward2_iter (gy gx : Cfg ℝ ℂ) (hemu : gy.emu = gx.emu) (f : ℕ → ℕ → ℂ) (ky kx : ℕ) :
+    fastForward2 expT expE gy gx f ky kx
+      = fastForward expT expE gy (fun iy => fastForward expT expE gx (f iy) kx) ky :=
+  fastForward2_eq_iter expT_isChar expE_isChar gy gx hemu f ky kx
+
+/-- the literal 2-D backward pipeline as 1-D pipelines -/
+theorem fastBackward2_iter (gy gx : Cfg ℝ ℂ) (hemu : gy.emu = gx.emu) (F : ℕ → ℕ → ℂ) (jy jx : ℕ) :
+    fastBackward2 expT expE gy gx F jy jx
+      = fastBackward expT expE gy (fun ky => fastBackward expT expE gx (F ky) jx) jy :=
+  fastBackward2_eq_iter expT_isChar expE_isChar gy gx hemu F jy jx
+
+/-- 1-D pipelines on different axes commute: backward along `x`, forward along `y` -/
+theorem fastBackward_fastForward_comm (gx gy : Cfg ℝ ℂ) (X : ℕ → ℕ → ℂ) (jx ky : ℕ) :
+    fastBackward expT expE gx (fun kx => fastForward expT expE gy (fun iy => X kx iy) ky) jx
+      = fastForward expT expE gy (fun iy => fastBackward expT expE gx (fun kx => X kx iy) jx) ky :=
+  FinLin.comm (fastBackward_finLin gx jx) (fastForward_finLin gy ky) X
+
+/-- 1-D backward pipelines on different axes commute -/
+theorem fastBackward_fastBackward_comm (gx gy : Cfg ℝ ℂ) (X : ℕ → ℕ → ℂ) (jx jy : ℕ) :
+    fastBackward expT expE gx (fun kx => fastBackward expT expE gy (fun ky => X kx ky) jy) jx
+      = fastBackward expT expE gy (fun ky => fastBackward expT expE gx (fun kx => X kx ky) jx) jy :=
+  FinLin.comm (fastBackward_finLin gx jx) (fastBackward_finLin gy jy) X
+
+/-- **2-D FastFourierTransform: backward is the adjoint of forward** in the weighted inner
+products of the two 2-D grids (weights `woy·wox` and `gy.w·gx.w`), cropped or not, both shift
+settings. -/
+theorem fast_adjoint_2d (gy gx : Cfg ℝ ℂ) (wry woy wrx wox : ℝ) (hemu : gy.emu = gx.emu)
+    (hNy : gy.N ≤ gy.M) (hMoy : gy.Mo ≤ gy.M) (hcy : gy.dT * (gy.M : ℝ) * gy.δ = 1)
+    (hgwy : gy.w = (wry : ℂ)) (hwy : (woy : ℂ) * (gy.M : ℂ) * gy.w = 1)
+    (hNx : gx.N ≤ gx.M) (hMox : gx.Mo ≤ gx.M) (hcx : gx.dT * (gx.M : ℝ) * gx.δ = 1)
+    (hgwx : gx.w = (wrx : ℂ)) (hwx : (wox : ℂ) * (gx.M : ℂ) * gx.w = 1) (x y : ℕ → ℕ → ℂ) :
+    ∑ ky ∈ range gy.Mo, ∑ kx ∈ range gx.Mo,
+        conj (y ky kx) * fastForward2 expT expE gy gx x ky kx * ((woy : ℂ) * (wox : ℂ))
+      = ∑ jy ∈ range gy.N, ∑ jx ∈ range gx.N,
+        conj (fastBackward2 expT expE gy gx y jy jx) * x jy jx * (gy.w * gx.w) := by
+  calc ∑ ky ∈ range gy.Mo, ∑ kx ∈ range gx.Mo,
+        conj (y ky kx) * fastForward2 expT expE gy gx x ky kx * ((woy : ℂ) * (wox : ℂ))
+      = ∑ kx ∈ range gx.Mo, (∑ ky ∈ range gy.Mo, conj (y ky kx) *
+          fastForward expT expE gy (fun iy => fastForward expT expE gx (x iy) kx) ky * (woy : ℂ))
+            * (wox : ℂ) := by
+        rw [Finset.sum_comm]
+        refine Finset.sum_congr rfl fun kx _ => ?_
+        rw [Finset.sum_mul]
+        refine Finset.sum_congr rfl fun ky _ => ?_
+        rw [fastForward2_iter gy gx hemu]; ring
+    _ = ∑ kx ∈ range gx.Mo, (∑ jy ∈ range gy.N,
+          conj (fastBackward expT expE gy (fun ky => y ky kx) jy) *
+            fastForward expT expE gx (x jy) kx * gy.w) * (wox : ℂ) := by
+        refine Finset.sum_congr rfl fun kx _ => ?_
+        rw [fast_adjoint gy wry woy hNy hMoy hcy hgwy hwy
+          (fun iy => fastForward expT expE gx (x iy) kx) (fun ky => y ky kx)]
+    _ = ∑ jy ∈ range gy.N, (∑ kx ∈ range gx.Mo,
+          conj (fastBackward expT expE gy (fun ky => y ky kx) jy) *
+            fastForward expT expE gx (x jy) kx * (wox : ℂ)) * gy.w := by
+        simp only [Finset.sum_mul]
+        rw [Finset.sum_comm]
+        exact Finset.sum_congr rfl fun _ _ => Finset.sum_congr rfl fun _ _ => by ring
+    _ = ∑ jy ∈ range gy.N, (∑ jx ∈ range gx.N,
+          conj (fastBackward expT expE gx
+            (fun kx => fastBackward expT expE gy (fun ky => y ky kx) jy) jx) *
+            x jy jx * gx.w) * gy.w := by
+        refine Finset.sum_congr rfl fun jy _ => ?_
+        rw [fast_adjoint gx wrx wox hNx hMox hcx hgwx hwx (x jy)
+          (fun kx => fastBackward expT expE gy (fun ky => y ky kx) jy)]
+    _ = _ := by
+        refine Finset.sum_congr rfl fun jy _ => ?_
+        rw [Finset.sum_mul]
+        refine Finset.sum_congr rfl fun jx _ => ?_
+        rw [fastBackward2_iter gy gx hemu, fastBackward_fastBackward_comm gx gy (fun kx ky => y ky kx)]
+        ring
+
+/-- **Full 2-D FFT grid pair: backward(forward(f)) = f** on every input sample. -/
+theorem full_grid_inverse_2d (gy gx : Cfg ℝ ℂ) (woy wox : ℂ) (hemu : gy.emu = gx.emu)
+    (hMoy : gy.Mo = gy.M) (hNy : gy.N ≤ gy.M) (hcy : gy.dT * (gy.M : ℝ) * gy.δ = 1)
+    (hwy : woy * (gy.M : ℂ) * gy.w = 1)
+    (hMox : gx.Mo = gx.M) (hNx : gx.N ≤ gx.M) (hcx : gx.dT * (gx.M : ℝ) * gx.δ = 1)
+    (hwx : wox * (gx.M : ℂ) * gx.w = 1)
+    (f : ℕ → ℕ → ℂ) (jy jx : ℕ) (hjy : jy < gy.N) (hjx : jx < gx.N) :
+    fastBackward2 expT expE gy gx (fastForward2 expT expE gy gx f) jy jx = f jy jx := by
+  rw [fastBackward2_iter gy gx hemu]
+  have e : (fun ky => fastBackward expT expE gx (fastForward2 expT expE gy gx f ky) jx)
+      = fun ky => fastForward expT expE gy (fun iy => f iy jx) ky := by
+    funext ky
+    have e1 : fastForward2 expT expE gy gx f ky
+        = fun kx => fastForward expT expE gy (fun iy => fastForward expT expE gx (f iy) kx) ky :=
+      funext fun kx => fastForward2_iter gy gx hemu f ky kx
+    rw [e1, fastBackward_fastForward_comm gx gy (fun kx iy => fastForward expT expE gx (f iy) kx)]
+    congr 1
+    funext iy
+    exact full_grid_inverse gx wox hMox hNx hcx hwx (f iy) jx hjx
+  rw [e]
+  exact full_grid_inverse gy woy hMoy hNy hcy hwy (fun iy => f iy jx) jy hjy
+
+/-- the input weight of a consistent pair with non-negative output weight is non-negative -/
+theorem wr_nonneg (g : Cfg ℝ ℂ) (wr wo : ℝ) (hgw : g.w = (wr : ℂ))
+    (hw : (wo : ℂ) * (g.M : ℂ) * g.w = 1) (hwo : 0 ≤ wo) : 0 ≤ wr := by
+  rw [hgw] at hw
+  have h : wo * (g.M : ℝ) * wr = 1 := by exact_mod_cast hw
+  by_contra hneg
+  have h1 : wo * (g.M : ℝ) * wr ≤ 0 :=
+    mul_nonpos_of_nonneg_of_nonpos (mul_nonneg hwo (Nat.cast_nonneg _)) (le_of_lt (not_le.mp hneg))
+  linarith
+
+/-- **Cropped 2-D FFT grid: the output energy never exceeds the input energy** (the 1-D
+inequality along `y` for every output column, then along `x` for every input row). -/
+theorem cropped_energy_le_2d (gy gx : Cfg ℝ ℂ) (wry woy wrx wox : ℝ) (hemu : gy.emu = gx.emu)
+    (hMoy : gy.Mo ≤ gy.M) (hNy : gy.N ≤ gy.M) (hcy : gy.dT * (gy.M : ℝ) * gy.δ = 1)
+    (hgwy : gy.w = (wry : ℂ)) (hwy : (woy : ℂ) * (gy.M : ℂ) * gy.w = 1) (hwoy : 0 ≤ woy)
+    (hMox : gx.Mo ≤ gx.M) (hNx : gx.N ≤ gx.M) (hcx : gx.dT * (gx.M : ℝ) * gx.δ = 1)
+    (hgwx : gx.w = (wrx : ℂ)) (hwx : (wox : ℂ) * (gx.M : ℂ) * gx.w = 1) (hwox : 0 ≤ wox)
+    (f : ℕ → ℕ → ℂ) :
+    ∑ ky ∈ range gy.Mo, ∑ kx ∈ range gx.Mo,
+        Complex.normSq (fastForward2 expT expE gy gx f ky kx) * (woy * wox)
+      ≤ ∑ jy ∈ range gy.N, ∑ jx ∈ range gx.N, Complex.normSq (f jy jx) * (wry * wrx) := by
+  have hwry : 0 ≤ wry := wr_nonneg gy wry woy hgwy hwy hwoy
+  calc ∑ ky ∈ range gy.Mo, ∑ kx ∈ range gx.Mo,
+        Complex.normSq (fastForward2 expT expE gy gx f ky kx) * (woy * wox)
+      = ∑ kx ∈ range gx.Mo, (∑ ky ∈ range gy.Mo, Complex.normSq
+          (fastForward expT expE gy (fun iy => fastForward expT expE gx (f iy) kx) ky) * woy)
+            * wox := by
+        rw [Finset.sum_comm]
+        refine Finset.sum_congr rfl fun kx _ => ?_
+        rw [Finset.sum_mul]
+        refine Finset.sum_congr rfl fun ky _ => ?_
+        rw [fastForward2_iter gy gx hemu]; ring
+    _ ≤ ∑ kx ∈ range gx.Mo, (∑ jy ∈ range gy.N,
+          Complex.normSq (fastForward expT expE gx (f jy) kx) * wry) * wox := by
+        refine Finset.sum_le_sum fun kx _ => mul_le_mul_of_nonneg_right ?_ hwox
+        exact cropped_energy_le gy wry woy hMoy hNy hcy hgwy hwy hwoy
+          (fun iy => fastForward expT expE gx (f iy) kx)
+    _ = ∑ jy ∈ range gy.N, (∑ kx ∈ range gx.Mo,
+          Complex.normSq (fastForward expT expE gx (f jy) kx) * wox) * wry := by
+        simp only [Finset.sum_mul]
+        rw [Finset.sum_comm]
+        exact Finset.sum_congr rfl fun _ _ => Finset.sum_congr rfl fun _ _ => by ring
+    _ ≤ ∑ jy ∈ range gy.N, (∑ jx ∈ range gx.N, Complex.normSq (f jy jx) * wrx) * wry := by
+        refine Finset.sum_le_sum fun jy _ => mul_le_mul_of_nonneg_right ?_ hwry
+        exact cropped_energy_le gx wrx wox hMox hNx hcx hgwx hwx hwox (f jy)
+    _ = _ := by
+        simp only [Finset.sum_mul]
+        exact Finset.sum_congr rfl fun _ _ => Finset.sum_congr rfl fun _ _ => by ring
+
+/-- **Full 2-D FFT grid pair: Parseval**,
+`Σ_{ky,kx} |F|²·(Δy/2π)(Δx/2π) = Σ_{jy,jx} |f|²·δy·δx`. -/
+theorem parseval_full_2d (gy gx : Cfg ℝ ℂ) (wry woy wrx wox : ℝ) (hemu : gy.emu = gx.emu)
+    (hMoy : gy.Mo = gy.M) (hNy : gy.N ≤ gy.M) (hcy : gy.dT * (gy.M : ℝ) * gy.δ = 1)
+    (hgwy : gy.w = (wry : ℂ)) (hwy : (woy : ℂ) * (gy.M : ℂ) * gy.w = 1)
+    (hMox : gx.Mo = gx.M) (hNx : gx.N ≤ gx.M) (hcx : gx.dT * (gx.M : ℝ) * gx.δ = 1)
+    (hgwx : gx.w = (wrx : ℂ)) (hwx : (wox : ℂ) * (gx.M : ℂ) * gx.w = 1)
+    (f : ℕ → ℕ → ℂ) :
+    ∑ ky ∈ range gy.M, ∑ kx ∈ range gx.M,
+        Complex.normSq (fastForward2 expT expE gy gx f ky kx) * (woy * wox)
+      = ∑ jy ∈ range gy.N, ∑ jx ∈ range gx.N, Complex.normSq (f jy jx) * (wry * wrx) := by
+  calc ∑ ky ∈ range gy.M, ∑ kx ∈ range gx.M,
+        Complex.normSq (fastForward2 expT expE gy gx f ky kx) * (woy * wox)
+      = ∑ kx ∈ range gx.M, (∑ ky ∈ range gy.M, Complex.normSq
+          (fastForward expT expE gy (fun iy => fastForward expT expE gx (f iy) kx) ky) * woy)
+            * wox := by
+        rw [Finset.sum_comm]
+        refine Finset.sum_congr rfl fun kx _ => ?_
+        rw [Finset.sum_mul]
+        refine Finset.sum_congr rfl fun ky _ => ?_
+        rw [fastForward2_iter gy gx hemu]; ring
+    _ = ∑ kx ∈ range gx.M, (∑ jy ∈ range gy.N,
+          Complex.normSq (fastForward expT expE gx (f jy) kx) * wry) * wox := by
+        refine Finset.sum_congr rfl fun kx _ => ?_
+        rw [parseval_full gy wry woy hMoy hNy hcy hgwy hwy
+          (fun iy => fastForward expT expE gx (f iy) kx)]
+    _ = ∑ jy ∈ range gy.N, (∑ kx ∈ range gx.M,
+          Complex.normSq (fastForward expT expE gx (f jy) kx) * wox) * wry := by
+        simp only [Finset.sum_mul]
+        rw [Finset.sum_comm]
+        exact Finset.sum_congr rfl fun _ _ => Finset.sum_congr rfl fun _ _ => by ring
+    _ = ∑ jy ∈ range gy.N, (∑ jx ∈ range gx.N, Complex.normSq (f jy jx) * wrx) * wry := by
+        refine Finset.sum_congr rfl fun jy _ => ?_
+        rw [parseval_full gx wrx wox hMox hNx hcx hgwx hwx (f jy)]
+    _ = _ := by
+        simp only [Finset.sum_mul]
+        exact Finset.sum_congr rfl fun _ _ => Finset.sum_congr rfl fun _ _ => by ring
+
+/-- Non-vacuity of the 2-D hypothesis bundle: two consistent full axes with matching real weights
+and equal shift setting (the 1-D witness on both axes). -/
+example : ∃ (gy gx : Cfg ℝ ℂ) (wry woy wrx wox : ℝ), gy.emu = gx.emu ∧
+    gy.Mo = gy.M ∧ gy.N ≤ gy.M ∧ gy.dT * (gy.M : ℝ) * gy.δ = 1 ∧ gy.w = (wry : ℂ) ∧
+    (woy : ℂ) * (gy.M : ℂ) * gy.w = 1 ∧ 0 ≤ woy ∧
+    gx.Mo = gx.M ∧ gx.N ≤ gx.M ∧ gx.dT * (gx.M : ℝ) * gx.δ = 1 ∧ gx.w = (wrx : ℂ) ∧
+    (wox : ℂ) * (gx.M : ℂ) * gx.w = 1 ∧ 0 ≤ wox :=
+  ⟨{ N := 2, M := 4, Mo := 4, δ := 1 / 2, z := 0, dT := 1 / 2, s := 0, w := ((1 / 2 : ℝ) : ℂ), emu := true },
+   { N := 2, M := 4, Mo := 4, δ := 1 / 2, z := 0, dT := 1 / 2, s := 0, w := ((1 / 2 : ℝ) : ℂ), emu := true },
+    1 / 2, 1 / 2, 1 / 2, 1 / 2, rfl, rfl, by norm_num, by norm_num, rfl, by push_cast; norm_num,
+    by norm_num, rfl, by norm_num, by norm_num, rfl, by push_cast; norm_num, by norm_num⟩
+
+/-! ## `n` axes: the iterated pipelines `fastForwardN` / `fastBackwardN` -/
+
+/-- hypothesis bundle for one axis of a **full** FFT grid pair: `Mo = M`, `N ≤ M`, consistency
+`dT·M·δ = 1`, and an output weight `wOut g` with `wOut g·M·w = 1` -/
+def FullAxis (wOut : Cfg ℝ ℂ → ℂ) (g : Cfg ℝ ℂ) : Prop :=
+  g.Mo = g.M ∧ g.N ≤ g.M ∧ g.dT * (g.M : ℝ) * g.δ = 1 ∧ wOut g * (g.M : ℂ) * g.w = 1
+
+/-- satisfiability of `FullAxis` (N = 2, M = Mo = 4, δ = w = 1/2, dT = wOut = 1/2) -/
+example : ∃ (wOut : Cfg ℝ ℂ → ℂ) (g : Cfg ℝ ℂ), FullAxis wOut g :=
+  ⟨fun _ => ((1 / 2 : ℝ) : ℂ),
+    { N := 2, M := 4, Mo := 4, δ := 1 / 2, z := 0, dT := 1 / 2, s := 0, w := ((1 / 2 : ℝ) : ℂ), emu := true },
+    rfl, by norm_num, by norm_num, by push_cast; norm_num⟩
+
+/-- **Full `n`-D FFT grid pair: backward(forward(f)) = f** for the iterated pipelines on any
+number of axes (each axis full and consistent, padding allowed, any shift setting per axis), at
+every in-range index list. -/
+theorem full_grid_inverse_nd (wOut : Cfg ℝ ℂ → ℂ) (gs : List (Cfg ℝ ℂ))
+    (hgs : ∀ g ∈ gs, FullAxis wOut g) (f : List ℕ → ℂ) (js : List ℕ)
+    (hjs : List.Forall₂ (fun j g => j < g.N) js gs) :
+    fastBackwardN expT expE gs (fastForwardN expT expE gs f) js = f js := by
+  induction gs generalizing f js with
+  | nil =>
+    cases hjs
+    rfl
+  | cons g gs ih =>
+    cases hjs with
+    | cons hj hjs =>
+      rename_i j js
+      obtain ⟨hMo, hN, hc, hw⟩ := hgs g (List.mem_cons_self ..)
+      have ih' := ih (fun g' hg' => hgs g' (List.mem_cons_of_mem _ hg'))
+      rw [fastBackwardN_cons]
+      have e : (fun k => fastBackwardN expT expE gs
+            (fun idx => fastForwardN expT expE (g :: gs) f (k :: idx)) js)
+          = fun k => fastForward expT expE g (fun i => f (i :: js)) k := by
+        funext k
+        have h1 := fastBackwardN_comm (T := expT) (E := expE) (fastForward_finLin (T := expT) (E := expE) g k) gs
+          (fun i idx => fastForwardN expT expE gs (fun idx' => f (i :: idx')) idx) js
+        refine h1.trans ?_
+        congr 1
+        funext i
+        exact ih' (fun idx' => f (i :: idx')) js hjs
+      rw [e]
+      exact full_grid_inverse g (wOut g) hMo hN hc hw (fun i => f (i :: js)) j hj
+
+/-! ## Adjointness of the code models: MatrixFourierTransform, one ZoomFFT axis -/
+
+/-- hypothesis: a weights object (`Weights.scalar` or `Weights.array`) has real entries -/
+def RealWeights (w : Weights ℂ) : Prop := ∀ i, conj (w.get i) = w.get i
+
+/-- satisfiability of `RealWeights`, both branches -/
+example : RealWeights (.scalar ((1 / 2 : ℝ) : ℂ)) ∧ RealWeights (.array fun i => ((i : ℝ) : ℂ)) :=
+  ⟨fun _ => Complex.conj_ofReal _, fun _ => Complex.conj_ofReal _⟩
+
+/-- **MatrixFourierTransform (ndim = 2): `backward` is the adjoint of `forward`** — for the
+two-`gemm` code models `mftForward` / `mftBackward` (Model/Mft.lean), arbitrary separated
+coordinates (no grid relation at all), both weight branches (`.scalar` / `.array`) on either side,
+real output weights; flat indices, weighted inner products `Σ conj(a)·b·w`. -/
+theorem mft_adjoint (Nx Ny Nu Nv : ℕ) (x y u v : ℕ → ℝ) (win wout : Weights ℂ)
+    (hwout : RealWeights wout) (X Y : ℕ → ℂ) :
+    ∑ k ∈ range (Nv * Nu),
+        conj (Y k) * mftForward expE Nx Ny Nu Nv x y u v win X k * wout.get k
+      = ∑ j ∈ range (Ny * Nx),
+        conj (mftBackward expE (starRingEnd ℂ) Nx Ny Nu Nv x y u v wout Y j) * X j * win.get j := by
+  rw [sum_flat, sum_flat]
+  have hf : ∀ iv ∈ range Nv, ∀ iu ∈ range Nu,
+      conj (Y (iv * Nu + iu)) * mftForward expE Nx Ny Nu Nv x y u v win X (iv * Nu + iu)
+          * wout.get (iv * Nu + iu)
+        = conj (Y (iv * Nu + iu)) *
+          (∑ iy ∈ range Ny, ∑ ix ∈ range Nx, X (iy * Nx + ix) * win.get (iy * Nx + ix)
+            * expE (-(u iu * x ix + v iv * y iy))) * wout.get (iv * Nu + iu) := by
+    intro iv _ iu hiu
+    rw [mft_forward_eq_sum_2d_get expE_isChar Nx Ny Nu Nv x y u v win X (mem_range.mp hiu)]
+  have hb : ∀ iy ∈ range Ny, ∀ ix ∈ range Nx,
+      conj (mftBackward expE (starRingEnd ℂ) Nx Ny Nu Nv x y u v wout Y (iy * Nx + ix))
+          * X (iy * Nx + ix) * win.get (iy * Nx + ix)
+        = conj (∑ iv ∈ range Nv, ∑ iu ∈ range Nu,
+            Y (iv * Nu + iu) * wout.get (iv * Nu + iu) * expE (u iu * x ix + v iv * y iy))
+          * X (iy * Nx + ix) * win.get (iy * Nx + ix) := by
+    intro iy hiy ix hix
+    rw [mft_backward_eq_sum_2d_complex expE_isChar expE_conj Nx Ny Nu Nv x y u v wout Y
+      (mem_range.mp hix) (mem_range.mp hiy)]
+  rw [Finset.sum_congr rfl fun iv hiv => Finset.sum_congr rfl (hf iv hiv),
+    Finset.sum_congr rfl fun iy hiy => Finset.sum_congr rfl (hb iy hiy)]
+  exact adjoint_sum_2d_exp Nx Ny Nu Nv x y u v win.get wout.get hwout X Y
+
+/-- **MatrixFourierTransform (ndim = 1): `backward` is the adjoint of `forward`** for the code
+models `mftForward1` / `mftBackward1`, arbitrary coordinates, real output weights. -/
+theorem mft_adjoint_1d (Nx Nu : ℕ) (x u : ℕ → ℝ) (win wout : Weights ℂ)
+    (hwout : RealWeights wout) (X Y : ℕ → ℂ) :
+    ∑ k ∈ range Nu, conj (Y k) * mftForward1 expE Nx x u win X k * wout.get k
+      = ∑ j ∈ range Nx,
+        conj (mftBackward1 expE (starRingEnd ℂ) Nu x u wout Y j) * X j * win.get j := by
+  simp only [mft_forward_eq_sum_1d, mft_backward_eq_sum_1d_complex expE_conj]
+  have h := adjoint_sum_finset (range Nx) (range Nu) (fun k j => expE (-(u k * x j))) win.get
+    wout.get hwout X Y
+  simp only [expE_conj, neg_neg] at h
+  exact h
+
+/-- hypothesis bundle for one ZoomFFT axis: non-empty grids and FFT lengths without wrap-around
+(`next_fast_len(n + m - 1) ≥ n + m - 1` for both CZTs) -/
+def ZoomAxisOK (n m nfft nfftInv : ℕ) : Prop :=
+  0 < n ∧ 0 < m ∧ n + m - 1 ≤ nfft ∧ m + n - 1 ≤ nfftInv
+
+/-- satisfiability of `ZoomAxisOK` -/
+example : ZoomAxisOK 3 4 6 6 := by unfold ZoomAxisOK; omega
+
+/-- **One ZoomFFT axis: the `backward` axis step is the adjoint of the `forward` axis step** —
+for the Bluestein code models `zoomAxis` (applied to `field·input_weights`) and `zoomAxisInv`
+(applied to `field·output_weights`), any two regular grids, real output weights. -/
+theorem zoom_axis_adjoint (n m nfft nfftInv : ℕ) (hok : ZoomAxisOK n m nfft nfftInv)
+    (x0 δ u0 Δ : ℝ) (win wout : ℕ → ℂ) (hwout : ∀ k, conj (wout k) = wout k) (X Y : ℕ → ℂ) :
+    ∑ k ∈ range m, conj (Y k) * zoomAxis n m nfft expE x0 δ u0 Δ (fun i => X i * win i) k * wout k
+      = ∑ j ∈ range n,
+        conj (zoomAxisInv expE n m nfftInv x0 δ u0 Δ (fun k => Y k * wout k) j) * X j * win j := by
+  obtain ⟨hn, hm, h1, h2⟩ := hok
+  have hf : ∀ k ∈ range m,
+      conj (Y k) * zoomAxis n m nfft expE x0 δ u0 Δ (fun i => X i * win i) k * wout k
+        = conj (Y k) * (∑ i ∈ range n, X i * win i
+            * expE (-((u0 + (k : ℝ) * Δ) * (x0 + (i : ℝ) * δ)))) * wout k := by
+    intro k hk
+    rw [zoom_axis_eq_sum expE_isChar two_ne_zero n m nfft hn h1 x0 δ u0 Δ _ k (mem_range.mp hk)]
+    simp only [zoomSum, sumRange_eq]
+  have hb : ∀ j ∈ range n,
+      conj (zoomAxisInv expE n m nfftInv x0 δ u0 Δ (fun k => Y k * wout k) j) * X j * win j
+        = conj (∑ k ∈ range m, Y k * wout k
+            * expE ((u0 + (k : ℝ) * Δ) * (x0 + (j : ℝ) * δ))) * X j * win j := by
+    intro j hj
+    unfold zoomAxisInv
+    rw [zoom_axis_backward_eq_sum expE_isChar two_ne_zero m n nfftInv hm h2 x0 δ u0 Δ _ j
+      (mem_range.mp hj)]
+  rw [Finset.sum_congr rfl hf, Finset.sum_congr rfl hb]
+  have h := adjoint_sum_finset (range n) (range m)
+    (fun k j => expE (-((u0 + (k : ℝ) * Δ) * (x0 + (j : ℝ) * δ)))) win wout hwout X Y
+  simp only [expE_conj, neg_neg] at h
+  exact h
+
+/-! ## Matrix-valued FourierFilter (`fourier_operations.py`, `_operation`, matrix-field branch) -/
+
+/-- **FourierFilter with a matrix transfer function: `backward` is the adjoint of `forward`.**
+Model (`filterM`, Lemmas/FourierC02R4.lean): `forward x = Pᴴ·F⁻¹·(D·(F·P·x))` with `P` the zero
+padding into the internal array, `Pᴴ` the cut-out, `F` the transform matrix of `fftn`,
+`F⁻¹ = c⁻¹·Fᴴ` that of `ifftn` (unnormalised DFT: `c = M`, real), and `D r` a 2×2 matrix applied
+to the two tensor components at every frequency sample `r` (`field_dot`); the adjoint call uses
+`field_conjugate_transpose(D)` (`fmCtr`).  Unweighted inner product over samples and components.
+The identity needs only `c` real (no unitarity of `F`, any `P`). -/
+theorem filterM_adjoint (n M : ℕ) (P F : ℕ → ℕ → ℂ) (c : ℂ) (hc : conj c = c)
+    (D : ℕ → Fin 2 → Fin 2 → ℂ) (x y : Fin 2 → ℕ → ℂ) :
+    ∑ a, ∑ i ∈ range n, conj (y a i) * filterM n M P F c D x a i
+      = ∑ a, ∑ i ∈ range n, conj (filterM n M P F c (fmCtr D) y a i) * x a i :=
+  filterM_adjoint_aux n M P F c hc D x y
+
+/-- satisfiability of the hypothesis of `filterM_adjoint`: the DFT normalisation `c = M` is real -/
+example (M : ℕ) : conj (M : ℂ) = (M : ℂ) := Complex.conj_natCast M
 
 end HcipyVerif.C02
